@@ -172,7 +172,16 @@ class Renderer:
         for errx, body in catches:
             out.append("catch")
             out += ["all"] if errx is None else self.e(errx, 0)
-            out += self.body(body) if body[0] in ("seq", "block") else self.e(body, 0)
+            if body[0] in ("seq", "block"):
+                out += self.body(body)
+            else:
+                h = self._e(body) if level(body) >= 0 else None
+                # a handler that starts with ( [ or - would be read as a continuation of the catch
+                # expression (call, index, subtraction): give it a block of its own
+                if h is None or (errx is not None and h[0] in ("(", "[", "-", "+")):
+                    out += self.block_tokens([body], [], [])
+                else:
+                    out += h
             if self.semi_p and self.r.random() < self.semi_p:
                 out.append(";")
         if fin:
